@@ -27,7 +27,8 @@ struct PollCtx {
   PollResolver resolver;
   MessageMap* map = nullptr;
   Message* msg = nullptr;
-  ~PollCtx() { delete map; }
+  BusHandler* bh = nullptr;  // receiver of the scan results (kind 3)
+  ~PollCtx() { delete bh; delete map; }
 };
 class TPoll : public PollRequest {
  public:
@@ -36,6 +37,23 @@ class TPoll : public PollRequest {
   bool notify(result_t result, const SlaveSymbolString& slave) override {
     Bytes s(slave.data(), slave.data() + slave.size());
     bool restart = PollRequest::notify(result, slave);
+    m_world->lastResult[m_idx] = result;
+    m_world->evNotify(m_idx, result, s, restart);
+    if (!restart) { m_world->reqState[m_idx] = 2; m_world->reqObj[m_idx] = nullptr; }
+    return restart;
+  }
+  World* m_world;
+  int m_idx;
+};
+// the real ScanRequest of bushandler.cpp (identification query 0704 to each slave of its list); only notify() is wrapped
+class TScan : public ScanRequest {
+ public:
+  TScan(World* w, int idx, MessageMap* map, const std::deque<Message*>& msgs, const std::deque<symbol_t>& slaves, BusHandler* bh)
+      : ScanRequest(true, map, msgs, slaves, bh), m_world(w), m_idx(idx) { TReq::s_live++; }
+  ~TScan() override { TReq::s_live--; }
+  bool notify(result_t result, const SlaveSymbolString& slave) override {
+    Bytes s(slave.data(), slave.data() + slave.size());
+    bool restart = ScanRequest::notify(result, slave);
     m_world->lastResult[m_idx] = result;
     m_world->evNotify(m_idx, result, s, restart);
     if (!restart) { m_world->reqState[m_idx] = 2; m_world->reqObj[m_idx] = nullptr; }
@@ -144,6 +162,14 @@ void World::enqueue(int idx) {
       TPoll* p = new TPoll(this, idx, pc->msg);
       if (p->prepare(sc.own) != RESULT_OK) { note("poll prepare failed"); delete p; reqState[idx] = 2; return; }
       reqObj[idx] = p;
+    } else if (sc.reqs[idx].kind == 3) {
+      PollCtx* pc = static_cast<PollCtx*>(pollCtx);
+      std::deque<Message*> msgs; msgs.push_back(pc->map->getScanMessage());
+      std::deque<symbol_t> slaves; slaves.push_back(sc.reqs[idx].master[1]);
+      for (auto& er : sc.reqs[idx].extraResponders) slaves.push_back(er.first);
+      TScan* p = new TScan(this, idx, pc->map, msgs, slaves, pc->bh);
+      if (p->prepare(sc.own) != RESULT_OK) { note("scan prepare failed"); delete p; reqState[idx] = 2; return; }
+      reqObj[idx] = p;
     } else
 #endif
     reqObj[idx] = new TReq(this, idx, masters[idx], sc.reqs[idx].kind == 1, sc.reqs[idx].restarts);
@@ -180,6 +206,14 @@ void World::chooseResponder(uint8_t zz) {
   for (size_t i = 0; i < sc.reqs.size(); i++) {
     if (sc.reqs[i].master[0] == wonAddr && sc.reqs[i].master[1] == zz) {
       startScript(&sc.reqs[i].responder);
+      exchange = active != nullptr;
+      return;
+    }
+  }
+  for (size_t i = 0; i < sc.reqs.size(); i++) {
+    if (sc.reqs[i].master[0] != wonAddr) continue;
+    for (auto& er : sc.reqs[i].extraResponders) if (er.first == zz) {
+      startScript(&er.second);
       exchange = active != nullptr;
       return;
     }
@@ -387,6 +421,7 @@ uint64_t World::stateHash() {
     int which = 0xff;
     for (size_t i = 0; i < sc.foreign.size(); i++) if (active == &sc.foreign[i]) which = (int)i;
     for (size_t i = 0; i < sc.reqs.size(); i++) if (active == &sc.reqs[i].responder) which = 0x40 + (int)i;
+    for (size_t i = 0; i < sc.reqs.size(); i++) for (size_t j = 0; j < sc.reqs[i].extraResponders.size(); j++) if (active == &sc.reqs[i].extraResponders[j].second) which = 0x60 + (int)(i * 4 + j);
     if (active == &sc.winnerTelegram) which = 0x80;
     put(which, 1); put(seg, 1); put(off, 1); put(awaitLeft, 1);
   } else {
@@ -450,7 +485,7 @@ void World::setup() {
   }
 #ifdef BUSMC_WITH_POLL
   pollCtx = nullptr;
-  for (size_t i = 0; i < sc.reqs.size(); i++) if (sc.reqs[i].kind == 2 && pollCtx == nullptr) {
+  for (size_t i = 0; i < sc.reqs.size(); i++) if (sc.reqs[i].kind >= 2 && pollCtx == nullptr) {
     PollCtx* pc = new PollCtx();
     pc->map = new MessageMap(false, "", false);
     pc->map->setResolver(&pc->resolver);
@@ -459,6 +494,7 @@ void World::setup() {
     result_t lr = pc->map->readFromStream(&is, "poll.csv", 0, false, nullptr, &err);
     pc->msg = pc->map->find("c", "poll2", "*", false);
     if (lr != RESULT_OK || pc->msg == nullptr) { fprintf(stderr, "busworld: cannot load the poll message: %s\n", err.c_str()); abort(); }
+    pc->bh = new BusHandler(pc->map, nullptr, 0);
     pollCtx = pc;
   }
 #endif
